@@ -6,6 +6,8 @@ Oracles:
  * phase_align: for y = g(phase), column c equals g(bin centres) - exactly for g linear in phase,
    within an interpolation bound for smooth g - whatever the cycle's duration;
  * bin_by_phase: every bin [e_b, e_b+1) that contains samples holds their mean (empty bins NaN)."""
+import contextlib
+
 import numpy as np
 
 from .. import gens
@@ -36,10 +38,14 @@ def check_stat(ctx, case):
     func = FUNCS[fname]
     K = labels.max() + 1 if len(labels) else 0
     ctx.case(digest(labels, vals, fname, out), K > 0)
-    want = np.array([func(vals[labels == k]) for k in range(K)], dtype=float)
-    l0, v0 = labels.copy(), vals.copy()
+    # (the caller's floating-point error policy is the caller's: some cases run with divide / invalid set to 'raise')
+    def policy():
+        return np.errstate(divide='raise', invalid='raise') if fname.startswith('fp:') else contextlib.nullcontext()
+    with policy():
+        want = np.array([func(np.array(vals[labels == k])) for k in range(K)], dtype=float)
+    l0, v0 = labels.copy(), np.array(vals, copy=True)
     try:
-        with quiet():
+        with quiet(), policy():
             got = C.get_cycle_stat(labels, vals, out=out, func=func)
     except Exception as e:
         ctx.violation('stat-exception:%s' % type(e).__name__, 'get_cycle_stat raised %s: %s' % (type(e).__name__, str(e)[:100]), case)
@@ -202,6 +208,29 @@ FUNCS.update({
     'user:median': _user('median', lambda v: float(v[-1])),
 })
 
+
+
+def _trimmed_range(v):
+    v.sort()                      # (rearranges ITS argument: fine on the per-cycle copy a reducer is given)
+    return float(v[-1] - v[0]) if len(v) < 4 else float(v[-2] - v[1])
+
+
+def _demeaned_peak(v):
+    v -= v.mean()
+    return float(np.abs(v).max())
+
+
+def _guarded_ratio(v):
+    # a reducer written for a caller that runs with np.seterr(divide='raise', invalid='raise'): its fallback must be taken
+    try:
+        return float(np.float64(v.sum()) / np.float64((v * 0).sum()))
+    except FloatingPointError:
+        return -1.0
+
+
+# reducers that modify the vector they are handed, and one whose result depends on the caller's floating-point error policy
+FUNCS.update({'mut:trimmed_range': _trimmed_range, 'mut:demeaned_peak': _demeaned_peak, 'fp:guarded_ratio': _guarded_ratio})
+
 KINDS = {'stat': check_stat, 'align': check_align, 'bin': check_bin}
 
 
@@ -281,7 +310,8 @@ def run_shard(ctx):
                 if k in case and isinstance(case[k], np.ndarray):
                     if k == 'labels' and rng.random() < .5:
                         case[k] = case[k].astype(np.int32)
-                    case[k], _ = gens.relayout(rng, case[k], 'strided')
+                    # (np.median on a MaskedArray makes numpy itself warn: the reducers are the harness's, keep them quiet)
+                    case[k], _ = gens.relayout(rng, case[k], 'strided', exclude=('masked',))
             ctx.count('strided_inputs')
         KINDS[case['kind']](ctx, case)
         if case['kind'] not in seen:
